@@ -37,7 +37,7 @@ Proof.
     inversion H; subst. apply IH in R.
     change (map xerase (d :: r)) with (xerase d :: map xerase r). cbn [drain].
     change (xerase d :: map xerase r) with (map xerase (d :: r)).
-    rewrite call_batch_guarded. rewrite map_flat_spawns in R. rewrite R. rewrite map_app. reflexivity.
+    rewrite call_batch_guarded. rewrite map_flat_spawns in R. rewrite R. rewrite <- map_app. reflexivity.
 Qed.
 
 (* ... so everything C14_deferred_once_in_order says holds of it: every function handed over is
@@ -53,7 +53,7 @@ Proof.
   pose proof (xdrain_code _ _ _ _ _ R) as D.
   destruct (drain_all_guarded (map xerase q)) as [L [HL [HLe HLp]]].
   unfold drain_all in HL. rewrite HL in D. inversion D as [[Hc Hq Hs]].
-  exists c. destruct q' as [|x r]; [|discriminate]. rewrite <- Hs. split; [reflexivity|].
+  exists c. destruct q' as [|x r]; [|discriminate]. split; [reflexivity|].
   rewrite <- Hc. split; assumption.
 Qed.
 
